@@ -95,6 +95,13 @@ VH_MAIN_BEGIN
     dobj = in.dobj;
     sobj = in.sobj;
     ASSUME(dobj <= NMAX && sobj <= NMAX);
+#ifdef FIX_DL
+    /* concatenation slices: old dest = FIX_DL concrete non-NUL characters + NUL, so that the library's
+       "find the end of dest" loop folds and dest stays a concrete offset (DESIGN 2.1) */
+    for (unsigned i = 0; i < FIX_DL; i++)
+        in.dfull[VH_RZ + i] = (T)(0x41 + i);
+    in.dfull[VH_RZ + FIX_DL] = 0;
+#endif
 #ifdef EXACT
     /* objects of exactly the declared size: CBMC's pointer checks are the faulting boundary */
 #define OBJ(n) ((T *)vh_alloc((n) * sizeof(T)))
